@@ -251,10 +251,20 @@ def case_catdate_strand():
     return "cube", [tabulate(sch, data)], [t], 1000, 0
 
 
+def case_scale_strand_nan_count():
+    # weighted strand with numeric values, one category's weighted count undefined (NaN): the scale statistics share
+    # one cached count vector, and the median treats NaN counts as zero where mean / std-dev propagate them
+    sch = Schema("scale_1d", [S.cat("a", 4, "mid", values=[1, 2, 3, 5])], [("cat", 0)], weighted=True)
+    data = [((1 + i % 4,), 1 + i % 2, None) for i in range(9)]
+    resp = tabulate(sch, data)
+    resp["result"]["measures"]["count"]["data"][2] = float("nan")      # a valid category (index 1 is the missing one)
+    return "cube", [resp], [{}], 0, 0
+
+
 CASES = [case_strand_with_difference, case_slice_idless_insertions, case_cat_x_mr, case_mr_x_cat_sorted, case_3d_cat_mr_mr, case_3d_mr_cat_cat, case_ca, case_numarr,
          case_datetime, case_cat_view_insertions, case_json_text, case_tabbook, case_numeric_summary,
          case_ca_as_0th, case_single_col_filter, case_catdate_smoothing, case_catdate_counts_smoothing, case_catdate_strand,
-         case_sum_strand, case_sum_slice, case_3d_alias_keyed_elements]
+         case_sum_strand, case_sum_slice, case_3d_alias_keyed_elements, case_scale_strand_nan_count]
 SCHEMAS = {}
 
 # ------------------------------------------------------------------------ reading
@@ -267,7 +277,8 @@ CORE_PART = ["counts", "unweighted_counts", "row_labels", "column_labels", "row_
              "rows_margin", "table_base", "population_counts", "shape", "means", "payload_order", "min_base_size_mask",
              "inserted_row_idxs", "row_codes", "rows_dimension_fills", "table_name", "is_empty", "smoothed_means",
              "scale_mean", "table_proportions", "unweighted_bases", "row_aliases", "derived_row_idxs", "name",
-             "columns_scale_mean_margin", "rows_margin_proportion", "diff_row_idxs", "population_fraction"]
+             "columns_scale_mean_margin", "rows_margin_proportion", "diff_row_idxs", "population_fraction",
+             "scale_median", "scale_std_dev", "scale_std_err"]
 CORE_METHODS = [("row_order", ()), ("row_order", (ORDER_FORMAT.BOGUS_IDS,)), ("column_order", ()),
                 ("pairwise_significance_t_stats", (0,))]
 ROOT_CUBE = ["partitions", "counts", "dimension_types", "name", "description", "available_measures",
